@@ -11,6 +11,41 @@ TRUSTED_BASE = [
 ]
 
 
+def c03_judge(case, ans):
+    """C03 on the implementation's own answer: every error leaf of a conversion of one item carries
+    a span lying inside that item (the harness converts through `from_meta(&item)`, so even root
+    absences inherit the item's span)."""
+    if not ans.startswith("(err"):
+        return None
+    try:
+        c, a = sexp.parse(case), sexp.parse(ans)
+    except Exception:
+        return None
+    if not (isinstance(c, list) and c and c[0] in ("recv", "fm") and len(c) >= 3):
+        return None
+    entry = c[2]
+    if not (isinstance(entry, list) and entry and entry[0] == "meta"):
+        return None
+    m = entry[1]
+    try:
+        if m[0] == "mpath":
+            lo, hi = int(m[1][5]), int(m[1][6])
+        else:
+            lo, hi = int(m[-2]), int(m[-1])
+        flat = [x for x in a[1][1:] if isinstance(x, list) and x and x[0] == "flat"][0]
+    except Exception:
+        return None
+    for r in flat[1:]:
+        msg = r[1][1] if isinstance(r[1], tuple) else str(r[1])
+        sp = r[2]
+        if sp == "none":
+            return "an error leaf about the item carries no usable span: " + msg[:80]
+        a0, b0 = int(sp[1]), int(sp[2])
+        if not (lo <= a0 <= b0 <= hi):
+            return "an error leaf's span (%d,%d) lies outside the item (%d,%d): %s" % (a0, b0, lo, hi, msg[:80])
+    return None
+
+
 def no_spans(x):
     return sexp.drop_tags(x, {"sp", "span"})
 
@@ -46,7 +81,10 @@ CONFIG = {
             {"name": "c13", "n": {"quick": 40000, "thorough": 40000}, "trivial": lambda case, ans: not ans.startswith("(err")},
             # spans of every leaf reported by derived receivers (mistakes at several depths)
             {"name": "c02", "n": {"quick": 12000, "thorough": 240000}, "trivial": lambda case, ans: not ans.startswith("(err")},
+            # list bodies that are not meta syntax at some depth
+            {"name": "c07m", "n": {"quick": 8000, "thorough": 160000}, "trivial": lambda case, ans: not ans.startswith("(err")},
         ],
+        "impl_judge": c03_judge,
         "rule": "error histories with with_span applied at random nodes (bundles and leaves) in random order; non-trivial = at least one with_span in the history; distinct by case text",
         "assumptions": ["spans are byte ranges of tokens parsed from source text (proc-macro2 span-locations)"],
         "partial": "error algebra proved in full; span placement by built-in conversions, maps and derived receivers is established by the models' explicit with_span calls (mirrored site by site) and the correspondence streams, with the per-leaf containment judged on the implementation's answers",
